@@ -6,7 +6,7 @@
            carries the last reply of its creation; what each polled batch yields is the part of
            [spec_yield] received up to that batch and not yielded before. `-` when the script is not a
            history a bus can produce (unstamped signals, inconsistent lookup, malformed replies)
-   class:  release_buffered | dbus_iface_forgery | -                                                   *)
+   class:  - (no known deviation class is left after the fixes 902c9069 and 0bffda5d)                   *)
 From Coq Require Import List NArith Bool.
 Import ListNotations.
 From ZV Require Import Base.Bytes C32.Model C32.Spec C32.Parse.
@@ -117,11 +117,6 @@ Definition spec_line (cf : cfg) (bs : list (bool * list wmsg)) : bytes :=
   if bus_history cf h && replies_ok (c_dest cf) 0 h then join (B ";") (spec_batches cf h bs 0 0 None 0)
   else dash.
 
-Definition class_of (cf : cfg) (h : list wmsg) (w : world) : bytes :=
-  if w_lost w then B "release_buffered"
-  else if forgeable cf h then B "dbus_iface_forgery"
-  else dash.
-
 Definition run_case (line : bytes) : outp :=
   match words line with
   | [m; d; pi; pm; sc] =>
@@ -134,7 +129,7 @@ Definition run_case (line : bytes) : outp :=
             let '(ml, w) := model_line cf bs in
             {| o_model := ml;
                o_spec := if lbeq ml (B "NOCALL") then dash else spec_line cf bs;
-               o_class := class_of cf h w |}
+               o_class := dash |}
         | _, _, _, _ => bad_case
         end
       else bad_case
